@@ -10,10 +10,11 @@ RULE = ('rrect correspondence rr_styled: stroke_area(), fill_area(), styled boun
         'colour on stroke_area().contains minus fill area (width > 0), nothing else over the union of the boxes + 3; boxes of the two areas grown/shrunk '
         'by the outside/inside part; inside strokes stay inside, outside strokes outside.')
 PARTIAL = []
-ASSUMPTIONS = ['rrect (styled_ok): stroke area and fill area within +-2^29 / 2^29 (no saturation); pixel semantics of fill_solid = the points of the area inside the '
+ASSUMPTIONS = ['rrect (styled_dom): stroke area and fill area in rr_dom (within +-2^29 / 2^29, no saturation, every intermediate fits its type); pixel semantics of fill_solid = the points of the area inside the '
                'target box (C01(a)/C03 own the target-side semantics); solid strokes',
                'rrect KNOWN FINDING class K06_rrect_fill_outside_stroke (some fill_area() point outside stroke_area()): excluded from C06_rrect_styled_spec by a '
-               'machine-checked boolean class predicate, witnessed by C06_rrect_styled_spec_refuted; the class predicate itself is compared model vs code (rr_k06)']
+               'machine-checked boolean class predicate, witnessed by C06_rrect_styled_spec_refuted; the class predicate itself is compared model vs code (rr_k06); '
+               'C06_rrect_no_oversize_no_K06 / C06_rrect_input_no_K06: the class is empty when no radius needs confinement in either area (input-checkable)']
 TRUSTED = ['rrect: hand-written model coq/Model/Rrect.v + Model/Style.v validated by differential testing (rr_styled), not proved equal to the Rust code']
 
 
